@@ -2908,7 +2908,8 @@ where
                                 }
                                 self.publish_recv.insert(packet_id);
 
-                                if !self.qos2_publish_handled.insert(packet_id) {
+                                // Marked as handled only once the packet has passed validation (below)
+                                if self.qos2_publish_handled.contains(&packet_id) {
                                     already_handled = true;
                                 }
                                 if self.status == ConnectionStatus::Connected
@@ -2981,6 +2982,10 @@ where
                                     topic_alias_recv.insert_or_update(packet.topic_name(), ta);
                                 }
                             }
+                        }
+
+                        if packet.qos() == Qos::ExactlyOnce {
+                            self.qos2_publish_handled.insert(packet.packet_id().unwrap());
                         }
 
                         // Send response packets
